@@ -372,6 +372,9 @@ func (s *Storage) UpdateDeviceState(device model.Device) error {
 // and the write are one statement: of two handlers working on copies of one frame, or on
 // frames overtaking each other, only the first succeeds; the other gets ErrNotFound.
 func (s *Storage) AdvanceFCntUp(eui protocol.EUI, acceptedFCnt uint16, newFCntUp uint16, keyWarning bool) error {
+	if err := verifgate.Gate("AdvanceFCntUp"); err != nil {
+		return err
+	}
 	return s.doSQLExec(s.devStmt.advanceUpStatement, func(st *sql.Stmt) (sql.Result, error) {
 		return st.Exec(newFCntUp, keyWarning, eui.ToInt64(), acceptedFCnt)
 	})
@@ -381,6 +384,9 @@ func (s *Storage) AdvanceFCntUp(eui protocol.EUI, acceptedFCnt uint16, newFCntUp
 // stored counter and stores its successor in one statement, so no two downlinks of a
 // session are numbered alike however their encoders overlap.
 func (s *Storage) NextFCntDn(eui protocol.EUI) (uint16, error) {
+	if err := verifgate.Gate("NextFCntDn"); err != nil {
+		return 0, err
+	}
 	s.mutex.Lock()
 	defer s.mutex.Unlock()
 	var next int64
